@@ -13,6 +13,7 @@ from .instrmodel import T, TYPECLS
 from .model import Repo
 
 PARAM = 'pytezos.michelson.sections.parameter.ParameterSection'
+ADT_NESTED = 'pytezos.michelson.types.adt.Nested'
 
 
 class TCls:
@@ -51,7 +52,17 @@ class PCls:
 
 
 def t(prim, *args, f=None, n=None) -> TCls:
-    return TCls(prim, list(args), f, n)
+    args = list(args)
+    if prim == 'pair' and len(args) > 2:  # right comb, as PairType.create_type
+        args = [args[0], t('pair', *args[1:])]
+    return TCls(prim, args, f, n)
+
+
+COMPOSITE = ('or', 'pair', 'option')
+
+
+def all_units(tc: TCls) -> bool:
+    return all(all_units(a) if a.prim == 'or' else a.prim == 'unit' for a in tc.args)
 
 
 class TypeTreeHooks(Hooks):
@@ -62,7 +73,7 @@ class TypeTreeHooks(Hooks):
         m = fi.module.name
         if m == 'pytezos.michelson.micheline':
             return fi.name in ('parse_micheline_value', 'parse_micheline_literal')
-        return m.startswith(T) or m == 'pytezos.michelson.sections.parameter'
+        return m.startswith(T) or m in ('pytezos.michelson.sections.parameter', 'pytezos.contract.data', 'pytezos.contract.entrypoint')
 
     def qual(self, tc: TCls) -> str:
         return TYPECLS.get(tc.prim, f'{T}.base.MichelsonType')
@@ -89,7 +100,7 @@ class TypeTreeHooks(Hooks):
             if name == '__name__':
                 return obj.prim
             if name == 'is_enum':
-                return False
+                return obj.prim == 'or' and all_units(obj)
             return self.bind(it, self.qual(obj), name, obj)
         if isinstance(obj, PCls):
             if name in obj.fields:
@@ -102,7 +113,7 @@ class TypeTreeHooks(Hooks):
             if name in ('prim', 'args', 'field_name', 'type_name'):
                 return getattr(tc, name)
             if name == 'is_enum':
-                return False
+                return tc.prim == 'or' and all_units(tc)
             if name in obj.fields:
                 return obj.fields[name]
             return self.bind(it, obj.cls, name, tc, inst=obj)
@@ -139,14 +150,23 @@ class TypeTreeHooks(Hooks):
         if isinstance(callee, FuncRef) and callee.fi is not None:
             fi = callee.fi
             recv = callee.self_val
+            if fi.qualname == PARAM + '.match' and getattr(self, 'param', None) is not None:
+                return self.param
             if isinstance(recv, TCls):
                 if fi.name == 'get_anon_type':
                     return recv.anon()
-                if fi.name in ('from_micheline_value', 'from_python_object') and recv.prim not in ('or', 'pair', 'option'):
-                    return self.leaf_value(recv, App(fi.name.split('_')[1], args[0]))
+                if fi.name in ('from_micheline_value', 'from_python_object') and recv.prim not in COMPOSITE:
+                    a = args[0]
+                    kind = fi.name.split('_')[1]
+                    # parsing what the same leaf rendered is the identity on the payload (decided per type by C11)
+                    if isinstance(a, App) and a.op == kind + '-of':
+                        return self.leaf_value(recv, a.args[0])
+                    return self.leaf_value(recv, App(kind, a))
                 if fi.name == 'create_type':
                     return NotImplemented
-            if isinstance(recv, Obj) and '_t' in recv.fields and recv.fields['_t'].prim not in ('or', 'pair', 'option'):
+            if isinstance(recv, Obj) and '_t' in recv.fields and recv.fields['_t'].prim not in COMPOSITE:
+                if fi.name in ('to_micheline_value', 'to_python_object'):
+                    it.event('leaf-render', fi.name, recv.fields['_t'].prim, kwargs.get('lazy_diff', False), kwargs.get('mode', 'readable'))
                 if fi.name == 'to_micheline_value':
                     return App('micheline-of', recv.fields.get('value'), kwargs.get('mode'))
                 if fi.name == 'to_python_object':
@@ -158,11 +178,31 @@ class TypeTreeHooks(Hooks):
     def isinstance(self, it, obj, classes):
         if isinstance(obj, (TCls, PCls)):
             return False
+        if isinstance(obj, App) and obj.op == 'python-of':
+            # the python object of a scalar leaf is not a container
+            names = {getattr(c, 'name', None) or getattr(c, 'qual', '') for c in classes}
+            if names <= {'list', 'tuple', 'dict', 'set', 'frozenset', ADT_NESTED}:
+                return False
+            return NotImplemented
+        if isinstance(obj, App) and obj.op == 'micheline-of':
+            # the Micheline of a leaf is a literal or primitive node: a dict
+            names = {getattr(c, 'name', None) for c in classes}
+            return 'dict' in names
+        return NotImplemented
+
+    def compare(self, it, op, a, b, node):
+        # leaf payloads and their renderings are data, never the Undefined marker object
+        if op in ('is', 'is not') and any(isinstance(x, (Sym, App)) for x in (a, b)) and any(isinstance(x, Obj) for x in (a, b)):
+            return op == 'is not'
+        # the python object / Micheline of a (non-option) leaf is never None
+        if op in ('is', 'is not') and any(x is None for x in (a, b)) and any(isinstance(x, App) and x.op in ('python-of', 'micheline-of') for x in (a, b)):
+            return op == 'is not'
         return NotImplemented
 
     def truth(self, it, term):
         if isinstance(term, (Sym,)):
             return True
-        if isinstance(term, App) and term.op in ('micheline', 'python', 'micheline-of', 'python-of'):
+        if isinstance(term, App) and term.op in ('micheline', 'python', 'micheline-of'):
             return True
+        # the python object of a leaf may be falsy (0, '', b''): unknown
         return None
